@@ -245,14 +245,14 @@ CHECKS["C13"] = dict(
 CHECKS["C11"] = dict(
     jobs=[dict(pkg="internal/verifchain", entry="HC11Lifecycle", params=dict(kind=k), flags=["-unwind", "1200", "-preempt", "1"], require_covers=["traffic after close returned", "rebind"]) for k in range(8)]
        + [dict(pkg="internal/verifchain", entry="HC11Lifecycle", params=dict(kind=k, concretenow=1), flags=["-unwind", "1200", "-preempt", "1"], require_covers=["traffic after close returned", "rebind"]) for k in (8, 11, 12, 13, 14, 15, 16, 17)]
-       + [dict(pkg="internal/verifchain", entry="HC11ReadThenClose", params=dict(kind=k), flags=["-unwind", "1200"], require_covers=["closed", "writer bound"], no_native=True) for k in (3, 5, 6, 7)]
+       + [dict(pkg="internal/verifchain", entry="HC11ReadThenClose", params=dict(kind=k), flags=["-unwind", "1200"], require_covers=["closed", "writer bound"], no_native=True) for k in (3, 5, 6, 7, 8, 12, 15)]
        + [dict(pkg="internal/verifchain", entry="HC11Unbind", params=dict(kind=k, concretenow=1), flags=["-unwind", "1200"], require_covers=["feedback about the stream before unbind"] + (["report after rebind"] if k in (4, 5, 7) else []), no_native=True) for k in (3, 4, 5, 7, 10)]
        + [dict(pkg="internal/verifchain", entry="HC11BindOrder", params=dict(kind=k, streams=3), flags=["-unwind", "1200"]) for k in (3, 4, 5, 6, 7, 10, 11, 12)]
        + [dict(pkg="internal/verifchain", entry="HC11BindOrder", params=dict(kind=k, streams=3, concretenow=1), flags=["-unwind", "1200"]) for k in (8, 13, 14, 15, 16, 17)]
        + [dict(pkg="internal/verifchain", entry="HC11DumpHandoff", flags=["-unwind", "1200"], require_covers=["call parked in the hand-off while the logger is busy", "closed"], no_native=True)]
        + [dict(pkg="pkg/gcc", entry="HC11PacerClose", params=dict(concretenow=1), require_covers=["closed", "tick pending at Close"])],
     level_note="PARTIAL CLAIM: lifecycle sequences are issued by one harness thread; the interceptor's own goroutines run in a cooperative model (they run when the caller blocks or yields; every select choice is explored; in the lifecycle jobs the choice of which runnable goroutine continues is explored too), i.e. schedules at synchronisation granularity, not pre-emptive interleavings; 'promptly' is read as 'returns' (a call that can never return is reported as 'all goroutines blocked'). Close racing with traffic from another goroutine is not explored.",
-    bounds=dict(quick="each of {NoOp, TWCC header extension, NACK responder, NACK generator, report sender, report receiver, TWCC sender, RFC 8888 sender, packetdump receiver and sender, rtpfb, stats, flexfec encoder, jitter buffer, pacing, cc with its default gcc estimator and leaky bucket pacer}: BindRTCPWriter (writer failing nondeterministically), BindLocalStream, BindRemoteStream, BindRTCPReader; optional traffic (one write, one read of a well-formed TWCC-tagged packet, one failing RTCP read); optional Unbind+Bind of the same SSRCs with traffic; Close; the same traffic after Close; Unbind after Close. Plus, for the four reader-side interceptors: a Read issued on a second goroutine (with or without an RTCP writer bound) that is in progress or parked when Close is called must return. Plus, for NACK generator, report sender, report receiver, RFC 8888 sender and intervalpli: a bound stream with traffic gets feedback at a harness-fired tick; after Unbind of that stream two further ticks emit nothing about its SSRC; the same SSRC bound again with one packet far from the old sequence numbers reports from fresh state at the next tick (receiver report: nothing lost, highest = the new number; sender report: packet count 1; RFC 8888: block begins at the new number with one metric block; NACK generator: no NACK). Plus, for 14 interceptors: three remote and three local streams bound before any RTCP writer is bound: every Bind returns. Plus packetdump (receiver and sender, RTP and RTCP path) with a slow dump target: a call parked in the hand-off to the busy logger goroutine when Close is called returns, Close returns once the target finishes, nothing is left behind. Plus the gcc leaky bucket pacer (default pacer of the estimator behind the cc interceptor): 0-2 packets queued, a tick pending or not when Close is called, both outcomes of the done/tick select: Close returns only after the pacing goroutine has finished and nothing reaches the RTP writer afterwards",
+    bounds=dict(quick="each of {NoOp, TWCC header extension, NACK responder, NACK generator, report sender, report receiver, TWCC sender, RFC 8888 sender, packetdump receiver and sender, rtpfb, stats, flexfec encoder, jitter buffer, pacing, cc with its default gcc estimator and leaky bucket pacer}: BindRTCPWriter (writer failing nondeterministically), BindLocalStream, BindRemoteStream, BindRTCPReader; optional traffic (one write, one read of a well-formed TWCC-tagged packet, one failing RTCP read); optional Unbind+Bind of the same SSRCs with traffic; Close; the same traffic after Close; Unbind after Close. Plus, for seven reader-side interceptors (NACK generator, report receiver, TWCC sender, RFC 8888 sender, packetdump receiver, stats, jitter buffer): a Read issued on a second goroutine (with or without an RTCP writer bound) that is in progress or parked when Close is called must return. Plus, for NACK generator, report sender, report receiver, RFC 8888 sender and intervalpli: a bound stream with traffic gets feedback at a harness-fired tick; after Unbind of that stream two further ticks emit nothing about its SSRC; the same SSRC bound again with one packet far from the old sequence numbers reports from fresh state at the next tick (receiver report: nothing lost, highest = the new number; sender report: packet count 1; RFC 8888: block begins at the new number with one metric block; NACK generator: no NACK). Plus, for 14 interceptors: three remote and three local streams bound before any RTCP writer is bound: every Bind returns. Plus packetdump (receiver and sender, RTP and RTCP path) with a slow dump target: a call parked in the hand-off to the busy logger goroutine when Close is called returns, Close returns once the target finishes, nothing is left behind. Plus the gcc leaky bucket pacer (default pacer of the estimator behind the cc interceptor): 0-2 packets queued, a tick pending or not when Close is called, both outcomes of the done/tick select: Close returns only after the pacing goroutine has finished and nothing reaches the RTP writer afterwards",
                 thorough="same"),
     outside=["Close racing with traffic at finer granularity than 'reader parked / not parked'", "two concurrent Close calls", "ticker fires during the sequence", "stats, packetdump, pacing, cc/gcc, jitter buffer and flexfec interceptors in the read-in-progress and unbind-then-tick scenarios (they are in the lifecycle and bind-order scenarios); intervalpli only in the unbind scenario (binding two PLI streams before any RTCP writer is bound fills its 1-slot channel and would block: not examined)", "release of per-stream memory (see C12)"],
     assumptions=["cooperative thread model", "tickers never fire unless fired by the harness"],
